@@ -672,6 +672,7 @@ def _shared_enumeration(prog):
 
 
 SELFTESTS = [
+    (rule_cycle_presence, ["c02_cyc_bad.cc"], ["c02_cyc_good.cc"], "sequence_number"),
     (rule_entry_fields, ["c02_bad.cc"], ["c02_good.cc"], "file_length"),
     (rule_sign_extend, ["c02_bad.cc"], ["c02_good.cc"], "sign_extend"),
     (rule_current_directory_tests, ["c02_bad.cc"], ["c02_good.cc"], "curdir-test"),
